@@ -65,7 +65,7 @@ theorem yields_coin (thr : UInt64) :
   | some r =>
     obtain ⟨u, src'⟩ := r
     left
-    refine ⟨(Val.bool (decide (thr ≤ u)) == vTrue), ⟨?_, ?_⟩, src', _, _, _, _, rfl⟩
+    refine ⟨(Val.bool (decide (thr ≤ u)) == vTrue), ⟨?_, ?_⟩, src', _, _, _, _, by simp, rfl⟩
     · intro ht
       subst ht
       have := next53_lt h
@@ -81,24 +81,31 @@ theorem yields_coin (thr : UInt64) :
 theorem i64_toInt (x : Int64) : x.toInt = x.toBitVec.toInt := rfl
 theorem u64_toNat (x : UInt64) : x.toNat = x.toBitVec.toNat := rfl
 
-/-- **`genIntRange`**: a value in `[min, max]` or no value -/
-theorem yields_intRange (ft : FT) (min max : Int64) (fuel : Nat) (hmm : min ≤ max) :
+theorem i64_round (x : Int64) : x.toUInt64.toInt64 = x := by
+  apply Int64.toBitVec_inj.mp; simp
+
+theorem i64_neg_neg (x : Int64) : -(-x) = x := by
+  apply Int64.toBitVec_inj.mp; simp
+
+/-- **`genIntRange`**: a value in `[min, max]` or no value; a raised overflow flag means the
+    value is that end of the range -/
+theorem yields_intRange_flags (ft : FT) (min max : Int64) (fuel : Nat) (hmm : min ≤ max) :
     Yields (fun (k : Int64 × Bool × Bool → Prog) => intRange ft min max fuel (fun i l r => k (i, l, r)))
-      (fun x => min ≤ x.1 ∧ x.1 ≤ max) := by
+      (fun x => (min ≤ x.1 ∧ x.1 ≤ max) ∧ (x.2.1 = true → x.1 = min) ∧ (x.2.2 = true → x.1 = max)) := by
   intro k src ts
   have hng : ¬ min > max := by
     rw [gt_iff_lt, Int64.lt_iff_toInt_lt]; rw [Int64.le_iff_toInt_le] at hmm; omega
   have hmm' : min.toBitVec.toInt ≤ max.toBitVec.toInt := Int64.le_iff_toInt_le.mp hmm
   simp only [intRange, hng, if_false]
-  generalize decide (min ≥ 0) = fl
-  generalize decide (max ≤ 0) = fr
+  generalize hfl : decide (min ≥ 0) = fl
+  generalize hfr : decide (max ≤ 0) = fr
   rcases yields_coin _ (fun neg =>
       if neg then
         uintRange ft (if min ≥ 0 then 0 else if max ≤ 0 then (-max).toUInt64 else 1) (-min).toUInt64 true fuel fun u l r =>
           k (-(u.toInt64), r, (l && fr))
       else
         uintRange ft (if min ≥ 0 then min.toUInt64 else 0) max.toUInt64 true fuel fun u l r =>
-          k (u.toInt64, (l && fl), r)) src ts with ⟨neg, ⟨hnev, halw⟩, src1, u1, k1, t1, ov1, hrun⟩ | ⟨e, he, hk⟩
+          k (u.toInt64, (l && fl), r)) src ts with ⟨neg, ⟨hnev, halw⟩, src1, u1, k1, t1, ov1, hne1, hrun⟩ | ⟨e, he, hk⟩
   · rw [hrun]
     by_cases hmin : min ≥ 0
     · -- non-negative range: the coin is never true
@@ -113,10 +120,14 @@ theorem yields_intRange (ft : FT) (min max : Int64) (fuel : Nat) (hmm : min ≤ 
         simp only [BitVec.toInt_eq_toNat_cond] at hmin0 hmm'
         have := min.toBitVec.isLt; have := max.toBitVec.isLt
         omega
-      rcases yields_uintRange ft min.toUInt64 max.toUInt64 true fuel hle
-          (fun x => k (x.1.toInt64, (x.2.1 && fl), x.2.2)) src1 ts with ⟨a, ⟨ha1, ha2⟩, src2, u2, k2, t2, ov2, hr2⟩ | ⟨e, he, hk⟩
+      rcases yields_uintRange_flags ft min.toUInt64 max.toUInt64 true fuel hle
+          (fun x => k (x.1.toInt64, (x.2.1 && fl), x.2.2)) src1 ts with ⟨a, ⟨⟨ha1, ha2⟩, hafl, hafr⟩, src2, u2, k2, t2, ov2, _, hr2⟩ | ⟨e, he, hk⟩
       · left
-        refine ⟨(a.1.toInt64, _, _), ?_, src2, _, _, _, _, by have h := hr2; dsimp only at h; rw [h, after_after0]⟩
+        refine ⟨(a.1.toInt64, _, _), ⟨?_, ?_, ?_⟩, src2, _, _, _, _, ?_, by have h := hr2; dsimp only at h; rw [h, after_after0]⟩
+        rotate_left
+        · intro hl; simp only [Bool.and_eq_true] at hl; rw [hafl hl.1]; exact i64_round min
+        · intro hr; rw [hafr hr]; exact i64_round max
+        · simp [hne1]
         have h1 : min.toBitVec.toNat ≤ a.1.toBitVec.toNat := by
           have := UInt64.le_iff_toNat_le.mp ha1
           rwa [u64_toNat, u64_toNat, Int64.toBitVec_toUInt64] at this
@@ -146,10 +157,14 @@ theorem yields_intRange (ft : FT) (min max : Int64) (fuel : Nat) (hmm : min ≤ 
           simp only [BitVec.toInt_eq_toNat_cond, BitVec.toNat_neg] at *
           have := min.toBitVec.isLt; have := max.toBitVec.isLt
           omega
-        rcases yields_uintRange ft (-max).toUInt64 (-min).toUInt64 true fuel hle
-            (fun x => k (-(x.1.toInt64), x.2.2, (x.2.1 && fr))) src1 ts with ⟨a, ⟨ha1, ha2⟩, src2, u2, k2, t2, ov2, hr2⟩ | ⟨e, he, hk⟩
+        rcases yields_uintRange_flags ft (-max).toUInt64 (-min).toUInt64 true fuel hle
+            (fun x => k (-(x.1.toInt64), x.2.2, (x.2.1 && fr))) src1 ts with ⟨a, ⟨⟨ha1, ha2⟩, hafl, hafr⟩, src2, u2, k2, t2, ov2, _, hr2⟩ | ⟨e, he, hk⟩
         · left
-          refine ⟨(-(a.1.toInt64), _, _), ?_, src2, _, _, _, _, by have h := hr2; dsimp only at h; rw [h, after_after0]⟩
+          refine ⟨(-(a.1.toInt64), _, _), ⟨?_, ?_, ?_⟩, src2, _, _, _, _, ?_, by have h := hr2; dsimp only at h; rw [h, after_after0]⟩
+          rotate_left
+          · intro hl; rw [hafr hl]; dsimp only; rw [i64_round]; exact i64_neg_neg min
+          · intro hr; simp only [Bool.and_eq_true] at hr; rw [hafl hr.1]; dsimp only; rw [i64_round]; exact i64_neg_neg max
+          · simp [hne1]
           have h1 : (-max.toBitVec).toNat ≤ a.1.toBitVec.toNat := by
             have := UInt64.le_iff_toNat_le.mp ha1
             rwa [u64_toNat, u64_toNat, Int64.toBitVec_toUInt64, Int64.toBitVec_neg] at this
@@ -168,10 +183,16 @@ theorem yields_intRange (ft : FT) (min max : Int64) (fuel : Nat) (hmm : min ≤ 
         cases neg
         · simp only [Bool.false_eq_true, if_false]
           have hle : (0 : UInt64) ≤ max.toUInt64 := by rw [UInt64.le_iff_toNat_le]; simp
-          rcases yields_uintRange ft 0 max.toUInt64 true fuel hle
-              (fun x => k (x.1.toInt64, (x.2.1 && fl), x.2.2)) src1 ts with ⟨a, ⟨_, ha2⟩, src2, u2, k2, t2, ov2, hr2⟩ | ⟨e, he, hk⟩
+          rcases yields_uintRange_flags ft 0 max.toUInt64 true fuel hle
+              (fun x => k (x.1.toInt64, (x.2.1 && fl), x.2.2)) src1 ts with ⟨a, ⟨⟨_, ha2⟩, hafl, hafr⟩, src2, u2, k2, t2, ov2, _, hr2⟩ | ⟨e, he, hk⟩
           · left
-            refine ⟨(a.1.toInt64, _, _), ?_, src2, _, _, _, _, by have h := hr2; dsimp only at h; rw [h, after_after0]⟩
+            refine ⟨(a.1.toInt64, _, _), ⟨?_, ?_, ?_⟩, src2, _, _, _, _, ?_, by have h := hr2; dsimp only at h; rw [h, after_after0]⟩
+            rotate_left
+            · intro hl; simp only [Bool.and_eq_true] at hl
+              have : fl = false := by rw [← hfl]; simp [hmin]
+              rw [this] at hl; exact absurd hl.2 (by simp)
+            · intro hr; rw [hafr hr]; exact i64_round max
+            · simp [hne1]
             have h2 : a.1.toBitVec.toNat ≤ max.toBitVec.toNat := by
               have := UInt64.le_iff_toNat_le.mp ha2
               rwa [u64_toNat, u64_toNat, Int64.toBitVec_toUInt64] at this
@@ -189,10 +210,16 @@ theorem yields_intRange (ft : FT) (min max : Int64) (fuel : Nat) (hmm : min ≤ 
             simp only [BitVec.toInt_eq_toNat_cond, BitVec.toNat_neg] at *
             have := min.toBitVec.isLt
             omega
-          rcases yields_uintRange ft 1 (-min).toUInt64 true fuel hle
-              (fun x => k (-(x.1.toInt64), x.2.2, (x.2.1 && fr))) src1 ts with ⟨a, ⟨ha1, ha2⟩, src2, u2, k2, t2, ov2, hr2⟩ | ⟨e, he, hk⟩
+          rcases yields_uintRange_flags ft 1 (-min).toUInt64 true fuel hle
+              (fun x => k (-(x.1.toInt64), x.2.2, (x.2.1 && fr))) src1 ts with ⟨a, ⟨⟨ha1, ha2⟩, hafl, hafr⟩, src2, u2, k2, t2, ov2, _, hr2⟩ | ⟨e, he, hk⟩
           · left
-            refine ⟨(-(a.1.toInt64), _, _), ?_, src2, _, _, _, _, by have h := hr2; dsimp only at h; rw [h, after_after0]⟩
+            refine ⟨(-(a.1.toInt64), _, _), ⟨?_, ?_, ?_⟩, src2, _, _, _, _, ?_, by have h := hr2; dsimp only at h; rw [h, after_after0]⟩
+            rotate_left
+            · intro hl; rw [hafr hl]; dsimp only; rw [i64_round]; exact i64_neg_neg min
+            · intro hr; simp only [Bool.and_eq_true] at hr
+              have : fr = false := by rw [← hfr]; simp [hmax]
+              rw [this] at hr; exact absurd hr.2 (by simp)
+            · simp [hne1]
             have h1 : 1 ≤ a.1.toBitVec.toNat := by
               have := UInt64.le_iff_toNat_le.mp ha1
               rwa [u64_toNat, u64_toNat] at this
@@ -206,5 +233,9 @@ theorem yields_intRange (ft : FT) (min max : Int64) (fuel : Nat) (hmm : min ≤ 
             exact ⟨e, by have h := he; dsimp only at h; simp only [after_res]; exact h, hk⟩
   · right
     exact ⟨e, he, hk⟩
+
+theorem yields_intRange (ft : FT) (min max : Int64) (fuel : Nat) (hmm : min ≤ max) :
+    Yields (fun (k : Int64 × Bool × Bool → Prog) => intRange ft min max fuel (fun i l r => k (i, l, r)))
+      (fun x => min ≤ x.1 ∧ x.1 ≤ max) := (yields_intRange_flags ft min max fuel hmm).mono fun _ h => h.1
 
 end Rapid
